@@ -11,6 +11,9 @@ ApfChoices ==
 
 ArgClasses(op) == {"ok"} \cup LocalRejectClasses(op)
                   \cup (IF op = "set_log_base" THEN {"shmfd", "legacy"} ELSE {})
+                  \* the largest payload a message can carry / the largest table
+                  \cup (IF op \in {"get_config", "set_config"} THEN {"max"} ELSE {})
+                  \cup (IF op = "set_mem_table" THEN {"n32"} ELSE {})
 
 Shapes(op) == {""} \cup UnusableShapes(op) \cup (IF op = "set_device_state_fd" THEN {"file"} ELSE {})
 
@@ -21,7 +24,7 @@ Calls ==
     \cup {[op |-> op, cls |-> cls, v |-> {}, h |-> h, shape |-> sh] :
              op \in FeOps \ {"set_features", "set_protocol_features", "get_features"},
              cls \in {"ok", "shmfd", "legacy", "empty", "toomany", "zero_size", "neg_fd", "q_oob", "flags_undef",
-                      "size0", "end_gt", "wrap", "toolong", "nil", "max", "nq0", "qs0"},
+                      "size0", "end_gt", "wrap", "toolong", "nil", "max", "nq0", "qs0", "n32"},
              h \in {"ok", "fail"}, sh \in {"", "wronglen", "nofile", "big", "file"}}
 
 ValidCall(c) == /\ c.cls \in ArgClasses(c.op) \ (IF c.op = "set_log_base" THEN {"ok"} ELSE {})
